@@ -95,6 +95,8 @@ def _replay_chunk(recs):
             try:
                 t.apply(rec["acts"][j])
                 got = t.verdicts()
+            except drv.NotInjective as e:
+                raise MachineryError("concretization of %s is not faithful: %s" % (_case_key(rec), e))
             except Exception as e:  # noqa
                 got = {"exc": "%s: %s" % (type(e).__name__, e)}
             stack.append((keys[j], t, got))
@@ -161,13 +163,31 @@ class _Abs(object):
         self.inserts = 0
 
     def candidates(self, rnd, name, max_inserts):
+        x = self._candidate(rnd, name, max_inserts)
+        if x is None:
+            return None
+        # (TxValidate.tla: no history leads to a transaction that looks like a coinbase)
+        ins = json.loads(json.dumps(self.ins))
+        if x["m"] in ("oph", "opi"):
+            ins[x["a"] - 1][x["m"]] = x["b"]
+        elif x["m"] == "ins_remove":
+            del ins[x["a"] - 1]
+        if len(ins) == 1 and ins[0]["oph"] == 2 and ins[0]["opi"] == 2:
+            return None
+        return x
+
+    def _candidate(self, rnd, name, max_inserts):
         n, m = len(self.ins), len(self.outs)
         P = rnd.randint(1, n)
         if name == "ver":
             return {"m": name, "a": 0, "b": 1 - self.ver}
         if name == "lock":
             return {"m": name, "a": 0, "b": 1 - self.lock}
-        if name in ("oph", "opi", "seq"):
+        if name == "oph":
+            return {"m": name, "a": P, "b": rnd.choice([v for v in (0, 1, 1, 2) if v != self.ins[P - 1]["oph"]])}
+        if name == "opi":
+            return {"m": name, "a": P, "b": rnd.choice([v for v in (0, 1, 1, 2) if v != self.ins[P - 1]["opi"]])}
+        if name == "seq":
             return {"m": name, "a": P, "b": 1 - self.ins[P - 1][name]}
         if name == "spent_amt":
             return {"m": name, "a": P, "b": 1 - self.ins[P - 1]["amt"]} if self.ins[P - 1]["known"] else None
@@ -269,7 +289,10 @@ def _record_random(args):
             tx, K, H = given[t]
             nin, nout = len(tx.txs_in), len(tx.txs_out)
             S = ["witness" if kd.split(":")[0] in drv.WITNESS_KINDS else "base" for kd in K]
-            tut = drv.TxUnderTest("BTC", K, H, nout, tx=tx)
+            try:
+                tut = drv.TxUnderTest("BTC", K, H, nout, tx=tx)
+            except drv.NotInjective:
+                continue            # e.g. two outputs paying the same amount: the token model cannot carry it
         else:
             forkid = rnd.random() < 0.25
             nin = rnd.randint(1, 4 if big else 3)
@@ -295,6 +318,9 @@ def _record_random(args):
             try:
                 tut.apply(x)
                 got = tut.verdicts()
+            except drv.NotInjective:
+                ev = None           # never log a "mutation" that changed nothing
+                break
             except Exception as e:  # noqa
                 got = {"exc": "%s: %s" % (type(e).__name__, e)}
             e = {"m": x["m"], "a": x["a"], "b": x["b"], "ok": "exc" not in got}
@@ -306,6 +332,8 @@ def _record_random(args):
                 e.update({"long": [False] * n, "fresh": [False] * n, "again": [False] * n, "long_bad": -1, "fresh_bad": -1,
                           "note": got["exc"]})
             ev.append(e)
+        if ev is None:
+            continue
         out.append({"nin": nin, "nout": nout, "H": H, "S": S, "K": K, "N": nops, "v0": v0.get("long"), "ev": ev, "src": src})
     return out
 
